@@ -1160,10 +1160,10 @@ class Arithmetic(Expr):
         # check for single ASCII characters
         if self.expr.startswith('\'') and self.expr.endswith('\''):
             c = self.expr[1:-1]
-            c = unescape(c)
             try:
+                c = unescape(c)
                 return ord(c)
-            except TypeError:
+            except (TypeError, UnicodeDecodeError):
                 raise AssemblerError('invalid char literal in expr: "{}"'.format(self.expr), line)
 
         try:
@@ -2161,7 +2161,10 @@ def lex_tokens(line):
     match = RE_ERROR.match(line.contents)
     if match is not None:
         message = match.group(1)
-        message = unescape(message)
+        try:
+            message = unescape(message)
+        except UnicodeDecodeError:
+            raise AssemblerError('invalid escape sequence in error message', line)
         tokens = ['error', message]
         return LineTokens(line, tokens)
 
@@ -2169,7 +2172,10 @@ def lex_tokens(line):
     match = RE_STRING.match(line.contents)
     if match is not None:
         value = match.group(1)
-        value = unescape(value)
+        try:
+            value = unescape(value)
+        except UnicodeDecodeError:
+            raise AssemblerError('invalid escape sequence in string', line)
         tokens = ['string', value]
         return LineTokens(line, tokens)
 
